@@ -50,6 +50,24 @@ def f6_point(g, t):
     return [g["c"][0] + c * x - s * y, g["c"][1] + s * x + c * y]
 
 
+def centre_arc(rng):
+    """an arc chosen by its centre parameters (start angle at/near every quadrant boundary and just before a full turn, long
+    sweeps in both directions, rotated tall or flat ellipses), converted to endpoint form: the configurations in which an axis
+    extremum lies inside the arc only after adding whole turns"""
+    rx = rng.choice([3.0, 12.0, 5.0, 40.0])
+    ry = rng.choice([12.0, 3.0, 5.0, 7.5])
+    phi = rng.choice([0.0, -20.0, 340.0, -380.0, 20.0, 90.0, 45.0, 135.0, -100.0, 200.0])
+    th1 = rng.choice([355.0, 359.0, 1.0, 5.0, 89.0, 91.0, 179.0, 181.0, 269.0, 271.0, 300.0, 45.0]) + rng.choice([0.0, 0.25, -0.25])
+    dth = rng.choice([340.0, 300.0, 200.0, 185.0, 95.0, 30.0, 270.0]) * rng.choice([1, -1])
+    cx, cy = geo.pt(rng)
+    c, sn = math.cos(math.radians(phi)), math.sin(math.radians(phi))
+
+    def at(deg):
+        x, y = rx * math.cos(math.radians(deg)), ry * math.sin(math.radians(deg))
+        return [cx + c * x - sn * y, cy + sn * x + c * y]
+    return {"start": at(th1), "end": at(th1 + dth), "rx": rx, "ry": ry, "rot": phi, "fa": int(abs(dth) > 180), "fs": int(dth > 0)}
+
+
 def rand_arc(rng):
     start = geo.pt(rng)
     s = 10 ** rng.uniform(-2, 3.5)
@@ -105,8 +123,8 @@ class C05(Prop):
             yield {"k": "arc", "a": c, "via": "ctor"}
             yield {"k": "arc", "a": c, "via": "path"}
         n = 4000 if tier == "quick" else 250000
-        for _ in range(n):
-            yield {"k": "arc", "a": rand_arc(rng), "via": rng.choice(["ctor", "ctor", "path"])}
+        for i in range(n):
+            yield {"k": "arc", "a": centre_arc(rng) if i % 4 == 3 else rand_arc(rng), "via": rng.choice(["ctor", "ctor", "path"])}
 
     def tag(self, case):
         a = case["a"]
@@ -150,7 +168,8 @@ class C05(Prop):
                     "center": [float(arc.center[0]), float(arc.center[1])],
                     "prx": [float(arc.prx[0]), float(arc.prx[1])], "pry": [float(arc.pry[0]), float(arc.pry[1])],
                     "length": float(arc.length()) if degenerate else None,
-                    "bbox": [float(v) for v in arc.bbox()] if degenerate else None}
+                    "bbox": [float(v) for v in arc.bbox()] if degenerate else None,
+                    "bb": [float(v) for v in arc.bbox()]}
         except Exception as e:
             return {"exc": exc_name(e)}
 
@@ -240,6 +259,20 @@ class C05(Prop):
         # radii: uniformly scaled just enough
         if abs(obs["rx"] - g["rx"]) > 1e-7 * g["rx"] or abs(obs["ry"] - g["ry"]) > 1e-7 * g["ry"]:
             fs.append(Failure(what="radii %r,%r; F.6.6 gives %r,%r" % (obs["rx"], obs["ry"], g["rx"], g["ry"]), case=case))
+        # bounding box: contains the F.6 arc and touches it on every side (dense sampling of the specification's arc;
+        # a side may exceed the samples' extreme by the sampling error only)
+        if obs.get("bb") is not None and abs(abs(g["dth"]) - math.pi) > 1e-6:
+            N = 720
+            sp = [f6_point(g, i / N) for i in range(N + 1)]
+            lo = [min(q[0] for q in sp), min(q[1] for q in sp)]
+            hi = [max(q[0] for q in sp), max(q[1] for q in sp)]
+            R = max(g["rx"], g["ry"])
+            slack = R * (g["dth"] / N) ** 2 / 2 + tol + 1e-9 * max(1.0, R)
+            bb = obs["bb"]
+            if bb[0] > lo[0] + tol or bb[1] > lo[1] + tol or bb[2] < hi[0] - tol or bb[3] < hi[1] - tol:
+                fs.append(Failure(what="bbox %r does not contain the arc (extent %r)" % (bb, lo + hi), case=case))
+            elif bb[0] < lo[0] - slack or bb[1] < lo[1] - slack or bb[2] > hi[0] + slack or bb[3] > hi[1] + slack:
+                fs.append(Failure(what="bbox %r is not tight (extent of the arc %r)" % (bb, lo + hi), case=case))
         # on-ellipse residual of every sampled point (implicit equation in the rotated frame)
         c, sn = math.cos(g["phi"]), math.sin(g["phi"])
         for p in pts:
